@@ -40,9 +40,23 @@ def find_one(ck, facts, rule, name_re, what):
     return fns[0]
 
 
-def dispatch_paths(fn):
+def dispatch_paths(fn, facts=None):
+    def own_closure_tokens(t):
+        """a call into one of fn's own closures (a local helper): the sophia calls made by the closure body"""
+        if facts is None:
+            return None
+        cf = facts.fns.get(t["f"].get("res") or "")
+        if cf is None or cf.kind != "Closure" or cf.root != fn.id:
+            return None
+        toks = sorted({"call:" + (tt["f"].get("name") or "?").split("::")[-1] for _, tt in cf.calls()
+                       if (tt["f"].get("krate") or "").startswith("sophia")})
+        return "|".join(toks) if toks else None
+
     def on_call(t):
         f = t["f"]
+        oc = own_closure_tokens(t)
+        if oc:
+            return oc
         if f.get("krate") == "sophia_sparql" or (f.get("krate") or "").startswith("sophia"):
             return "call:" + (f.get("name") or "?").split("::")[-1]
         if call_name_matches(t, r"Dataset>?::\w+$"):
@@ -58,7 +72,8 @@ def dispatch_paths(fn):
                 return "NotImplemented(%s)" % msg
             return "err:" + v
         return None
-    return enumerate_paths(fn, 0, on_call, on_stmt=on_stmt, follow_errors=True, max_paths=3000)
+    paths = enumerate_paths(fn, 0, on_call, on_stmt=on_stmt, follow_errors=True, max_paths=3000)
+    return [(conds, [x for tk in toks for x in (tk.split("|") if isinstance(tk, str) and tk.startswith("call:") else [tk])]) for conds, toks in paths]
 
 
 def catch_all_variants(fn, enum_suffix):
@@ -136,7 +151,7 @@ def query_rule(ck, facts):
     if fn is None:
         return
     try:
-        paths = dispatch_paths(fn)
+        paths = dispatch_paths(fn, facts)
     except CheckError as e:
         ck.bad("R13.1", "R13.1@query#shape", str(e), fn.loc)
         return
@@ -172,10 +187,40 @@ def query_rule(ck, facts):
                 if st[0] == "=" and st[2][0] == "agg" and st[2][1].get("vname") == "NotImplemented":
                     o = fn.origin(st[2][2][0])
                     consts.append(o[1].get("v") if o[0] == "const" else "?")
-        if "FROM NAMED" in consts:
+        if any(isinstance(c_, str) and "FROM NAMED" in c_ for c_ in consts):
             ck.ok("R13.1", "ExecState::new rejects FROM NAMED")
         else:
             ck.bad("R13.1", "R13.1@ExecState::new#from-named", "FROM NAMED is not rejected with NotImplemented", fn.loc)
+        # any query dataset (FROM as well: the merge of several default graphs is not implemented, and the public
+        # SparqlQuery::from(spargebra::Query) can carry one) is refused before anything is evaluated
+        refused = False
+        for bi in range(len(fn.blocks)):
+            bs = bool_switch(fn, bi)
+            if bs and bs[0][0] == "call" and call_name_matches(bs[0][1], r"Option::<T>::is_some$"):
+                o = fn.origin(bs[0][1]["args"][0])
+                if o[0] == "param" and o[1] == 2:
+                    region = fn.reachable(bs[1], avoid={bs[2]})
+                    ni = any(st[0] == "=" and st[2][0] == "agg" and st[2][1].get("vname") == "NotImplemented" for x in region for st in fn.blocks[x]["s"])
+                    evals = [x for x in region if fn.blocks[x]["t"]["t"] == "call" and not fn.blocks[x]["t"].get("exp")]
+                    if ni and not evals and fn.dominates(bi, bi):
+                        refused = True
+        for bi, b in enumerate(fn.blocks):
+            t = b["t"]
+            if t["t"] == "switch" and (t.get("variants") or {}).get("enum") == "core::option::Option" and t["on"][0] != "k":
+                o = fn.origin(t["on"])
+                if o[0] == "rvalue" and o[1][0] == "discr" and o[1][1][0] == 2 and bi in (0, 1):
+                    names = t["variants"]["names"]
+                    some = [tb for v, tb in t["vals"] if names.get(v) == "Some"] or [t["else"]]
+                    region = fn.reachable(some[0], avoid={x for v, x in t["vals"] if names.get(v) == "None"})
+                    if any(st[0] == "=" and st[2][0] == "agg" and st[2][1].get("vname") == "NotImplemented" for x in region for st in fn.blocks[x]["s"]) \
+                            and not [x for x in region if fn.blocks[x]["t"]["t"] == "call" and not fn.blocks[x]["t"].get("exp")]:
+                        refused = True
+        if refused:
+            ck.ok("R13.1", "ExecState::new refuses every query dataset (FROM / FROM NAMED) before evaluating anything")
+        else:
+            ck.bad("R13.1", "R13.1@ExecState::new#from", "a query dataset with FROM graphs only is evaluated (as a multiset union of the graphs: a triple "
+                   "in two FROM graphs yields two solutions, and GRAPH ?g still ranges over every graph of the dataset) instead of "
+                   "being refused with NotImplemented", fn.loc)
     # from_expr: no catch-all
     fn = find_one(ck, facts, "R13.1", r"expression::ArcExpression::from_expr$", "ArcExpression::from_expr")
     if fn is not None:
